@@ -329,6 +329,7 @@ class Inliner:
         self.skipped = []
         self.tmp = 0
         self.caller_ref_names = set()
+        self.typed_locals = {}
         self.relpath = relpath
         ref = ref_functions().get(relpath)
         if ref is None:
@@ -504,7 +505,8 @@ class Inliner:
             if isinstance(recv, ast.Call) and isinstance(recv.func, ast.Name) and recv.func.id == 'super':
                 # super().helper(..): the helper runs on the very object the calling method runs on
                 recv = ast.copy_location(ast.Name(id='self', ctx=ast.Load()), recv)
-            if not f.attr.startswith('_') and not (isinstance(recv, ast.Name) and recv.id == 'self'):
+            known_type = isinstance(recv, ast.Name) and getattr(self, 'typed_locals', {}).get(recv.id) == {h.cls}
+            if not f.attr.startswith('_') and not (isinstance(recv, ast.Name) and recv.id == 'self') and not known_type:
                 # a public method name (close, write, update ...) on another receiver is, as far as this analysis can tell, the method of another type
                 return None, None
             return h, recv
@@ -857,6 +859,11 @@ class Inliner:
         for q, f in list(alpha.functions(self.tree)):
             n0 = len(self.done)
             self.caller_ref_names = set((alpha.reference().get(self.relpath) or {}).get(q, {}).keys())
+            # locals of the caller that are bound (only) to a fresh instance of a class: `labeller = _BinLabeller(..)` - their type is known
+            self.typed_locals = {}
+            for a_ in ast.walk(f):
+                if isinstance(a_, ast.Assign) and len(a_.targets) == 1 and isinstance(a_.targets[0], ast.Name) and isinstance(a_.value, ast.Call) and isinstance(a_.value.func, ast.Name):
+                    self.typed_locals.setdefault(a_.targets[0].id, set()).add(a_.value.func.id)
             # `helper(*E)` with a helper of n fixed parameters is `a1, .., an = E; helper(a1, .., an)` (a different arity raises either way)
             f.body = self._expand_star_calls(f.body)
             # statement-level inlining first (keeps the helper's temporaries), then expression substitution for what is left
